@@ -322,7 +322,10 @@ func ComposeBuilders(selector Selector, config CompositionConfig) RewriteRule {
 		// - add the new composed builders to newBuilders
 
 		newBuilders := make([]ast.Builder, 0, len(builders))
+		// one composed builder per composable schema: two packages can carry the same
+		// identifier (two versions of a plugin) and are not to be merged into each other
 		composableBuilders := make(map[string]ast.Builders)
+		panelTypeOfPackage := make(map[string]string)
 
 		for _, builder := range builders {
 			// the builder isn't selected: let's leave it untouched
@@ -336,19 +339,20 @@ func ComposeBuilders(selector Selector, config CompositionConfig) RewriteRule {
 				continue
 			}
 
-			panelType := schema.Metadata.Identifier
-			composableBuilders[panelType] = append(composableBuilders[panelType], builder)
+			composablePkg := builder.For.SelfRef.ReferredPkg
+			panelTypeOfPackage[composablePkg] = schema.Metadata.Identifier
+			composableBuilders[composablePkg] = append(composableBuilders[composablePkg], builder)
 		}
 
 		// sorted, to not depend on map iteration order
-		panelTypes := make([]string, 0, len(composableBuilders))
-		for panelType := range composableBuilders {
-			panelTypes = append(panelTypes, panelType)
+		composablePkgs := make([]string, 0, len(composableBuilders))
+		for composablePkg := range composableBuilders {
+			composablePkgs = append(composablePkgs, composablePkg)
 		}
-		sort.Strings(panelTypes)
+		sort.Strings(composablePkgs)
 
-		for _, panelType := range panelTypes {
-			composedBuilders, err := composeBuilderForType(schemas, builders, config, panelType, sourceBuilder, composableBuilders[panelType])
+		for _, composablePkg := range composablePkgs {
+			composedBuilders, err := composeBuilderForType(schemas, builders, config, panelTypeOfPackage[composablePkg], sourceBuilder, composableBuilders[composablePkg])
 			if err != nil {
 				return nil, fmt.Errorf("could not apply ComposeBuilders builder veneer: %w", err)
 			}
